@@ -55,12 +55,29 @@ structure State (K V P : Type) where
   bases : Nat → Option (Assoc K V)
   loggers : List (Opts K V P)
   out : List (Event K V P)
+  /-- `bool(patcher)`: the truth value of a patcher OBJECT (a callable is truthy unless its class defines
+  `__bool__` / `__len__` saying otherwise); a fact about the user's objects, never changed by an operation -/
+  truthy : P → Bool
 
 def rootOpts : Opts K V P := { flags := Gen.optDefaults, patchers := [], extra := [] }
 
-def init : State K V P :=
+/-- the initial state, for patcher objects with the given truth values -/
+def initT (truthy : P → Bool) : State K V P :=
   { coreExtra := [], corePatcher := none, handlers := [], nextH := 0, cv := ContextVars.init,
-    stacks := fun _ => [], bases := fun _ => none, loggers := [rootOpts], out := [] }
+    stacks := fun _ => [], bases := fun _ => none, loggers := [rootOpts], out := [], truthy := truthy }
+
+/-- the initial state when every patcher object is truthy (plain functions, lambdas, bound methods) -/
+def init : State K V P := initT (fun _ => true)
+
+/-- the configured patcher as `_log` calls it: under `if core.patcher is not None:` whenever one is configured,
+under `if core.patcher:` only when, in addition, the object is truthy -/
+def coreCalledWith (guard : PatcherGuard) (s : State K V P) : List P :=
+  match guard with
+  | .isNotNone => s.corePatcher.toList
+  | .truthy => (s.corePatcher.filter s.truthy).toList
+
+/-- what `Logger._log` does now (`Gen.corePatcherGuard` is regenerated from its source) -/
+def coreCalled (s : State K V P) : List P := coreCalledWith Gen.corePatcherGuard s
 
 /-- `context.get()` (the variable's default is `{}`) -/
 def ctxGet (s : State K V P) (c : Nat) : Assoc K V := (ContextVars.get s.cv c).getD []
@@ -105,7 +122,7 @@ def runPatchers (papply : P → Assoc K V → Assoc K V) (c : Nat) :
 def runPhase (papply : P → Assoc K V → Assoc K V) (s : State K V P) (c : Nat) (o : Opts K V P)
     (acc : List (Event K V P) × Assoc K V) : Phase → List (Event K V P) × Assoc K V
   | .corePatcher =>
-    let r := runPatchers papply c s.corePatcher.toList acc.2
+    let r := runPatchers papply c (coreCalled s) acc.2
     (acc.1 ++ r.1, r.2)
   | .patchers =>
     let r := runPatchers papply c o.patchers acc.2
